@@ -1,5 +1,5 @@
 CONSTANTS Contents = {1, 2}  Modes = {384, 493}
-          MaxDepth = 4  Seeds = {"empty", "file", "links"}
+          MaxDepth = 3  Seeds = {"empty", "file", "links"}
 INIT Init
 NEXT GenNext
 VIEW ViewMC
